@@ -275,6 +275,12 @@ def quotedLoop (q : Char) (src : Str) : Nat → Nat → Bool → Str → QScan
       else if esc then quotedLoop q src n (i + 1) false (acc ++ [c])
       else .closed acc i
 
+/-- `valEndIndex := strings.IndexFunc(src, isCharFunc('\n')); if valEndIndex == -1 { valEndIndex = len(src) }` -/
+def valEndIndex (src : Str) : Nat :=
+  match indexFunc (· == '\n') src 0 with
+  | some k => k
+  | none => src.length
+
 def extractValue (src : Str) (envMap : Map) (lookup : Env) : Stage (Str × Str) :=
   let quoted : Option Char := match src with
     | c :: _ => if c == '"' || c == '\'' then some c else none
@@ -292,10 +298,7 @@ def extractValue (src : Str) (envMap : Map) (lookup : Env) : Stage (Str × Str) 
     match quotedLoop q src (src.length - 1) 1 false [] with
     | .oob => .error .quoteIndex
     | .unterminated =>
-      let valEnd := match indexFunc (· == '\n') src 0 with
-        | some k => k
-        | none => src.length
-      match sliceTo src valEnd with
+      match sliceTo src (valEndIndex src) with
       | none => .error .untermSlice
       | some _ => .ok (.error .unterminated)
     | .closed chars i =>
